@@ -109,7 +109,7 @@ theorem serve_log_inv (q : Req) (e : Entry) (h : (serve q).log = some e) :
       ∧ q.port0 = false ∧ q.globBlockIP = false ∧ q.globBlockHost = false ∧ q.profBlock = false
       ∧ q.badECS = false ∧ rlDropEff q = false ∧ q.special = false ∧ q.debug = false ∧ q.ctxErr = false ∧ q.upErr = false
       ∧ e.name = q.name ∧ e.qtype = q.qtype ∧ e.proto = q.proto ∧ e.reqRes = q.reqRes
-      ∧ e.respRes = respResOf q ∧ e.rcode = (filteredResp q).rcode ∧ e.reqId = q.reqId
+      ∧ e.respRes = respResOf q ∧ e.rcode = rcode16 (filteredResp q).rcode ∧ e.reqId = q.reqId
       ∧ e.timeMs = q.startMs ∧ (∀ a, e.ip = some a → a = q.remoteIP) := by
   unfold serve at h
   split at h
@@ -181,17 +181,21 @@ theorem serve_bill_inv (q : Req) (b : Bill) (h : (serve q).bill = some b) :
 
 /-! ## The log file under concurrent writers: the ownership invariant -/
 
+/-- Writer states in which a pooled buffer is held. -/
+def Holding (p : Nat) : Prop := (1 ≤ p ∧ p ≤ 4) ∨ p = 6
+
 structure Inv (J : Jobs) (s : FS) : Prop where
   file : s.file = (s.order.map (lineOf J)).flatten
-  holdLt : ∀ i, 1 ≤ s.pc i → s.pc i ≤ 4 → s.hold i < s.nbufs
-  holdNF : ∀ i, 1 ≤ s.pc i → s.pc i ≤ 4 → s.hold i ∉ s.free
-  inj : ∀ i j, i ≠ j → 1 ≤ s.pc i → s.pc i ≤ 4 → 1 ≤ s.pc j → s.pc j ≤ 4 → s.hold i ≠ s.hold j
+  holdLt : ∀ i, (1 ≤ s.pc i ∧ s.pc i ≤ 4) ∨ s.pc i = 6 → s.hold i < s.nbufs
+  holdNF : ∀ i, (1 ≤ s.pc i ∧ s.pc i ≤ 4) ∨ s.pc i = 6 → s.hold i ∉ s.free
+  inj : ∀ i j, i ≠ j → (1 ≤ s.pc i ∧ s.pc i ≤ 4) ∨ s.pc i = 6 → (1 ≤ s.pc j ∧ s.pc j ≤ 4) ∨ s.pc j = 6 →
+    s.hold i ≠ s.hold j
   b1 : ∀ i, s.pc i = 1 → (s.bufs (s.hold i)).bytes = []
   b2 : ∀ i, s.pc i = 2 → (s.bufs (s.hold i)).bytes = [] ∧ (s.bufs (s.hold i)).ent = J i
   b3 : ∀ i, s.pc i = 3 → (s.bufs (s.hold i)).bytes = lineOf J i
   freeLt : ∀ k ∈ s.free, k < s.nbufs
   freeND : s.free.Nodup
-  ord : ∀ i, i ∈ s.order ↔ 4 ≤ s.pc i
+  ord : ∀ i, i ∈ s.order ↔ (s.pc i = 4 ∨ s.pc i = 5)
   ordND : s.order.Nodup
   started : ∀ i, s.pc i ≠ 0 → (J i).isSome
 
@@ -241,9 +245,13 @@ theorem inv_step (J : Jobs) (s : FS) (i : Nat) (c : Option Nat) (h : Inv J s) : 
     · rename_i hpc
       obtain ⟨hfile, hlt, hnf, hinj, hb1, hb2, hb3, hflt, hfnd, hord, hordnd, hst⟩ := h
       have := hb2 i hpc
-      constructor
-      all_goals simp only [put]
-      all_goals grind
+      split
+      · constructor
+        all_goals simp only [put]
+        all_goals grind
+      · constructor
+        all_goals simp only [put]
+        all_goals grind
     · rename_i hpc
       obtain ⟨hfile, hlt, hnf, hinj, hb1, hb2, hb3, hflt, hfnd, hord, hordnd, hst⟩ := h
       have := hb3 i hpc
@@ -254,8 +262,15 @@ theorem inv_step (J : Jobs) (s : FS) (i : Nat) (c : Option Nat) (h : Inv J s) : 
       all_goals grind
     · rename_i hpc
       obtain ⟨hfile, hlt, hnf, hinj, hb1, hb2, hb3, hflt, hfnd, hord, hordnd, hst⟩ := h
-      have := hnf i (by omega) (by omega)
-      have := hlt i (by omega) (by omega)
+      have := hnf i (by omega)
+      have := hlt i (by omega)
+      constructor
+      all_goals simp only [put]
+      all_goals grind
+    · rename_i hpc
+      obtain ⟨hfile, hlt, hnf, hinj, hb1, hb2, hb3, hflt, hfnd, hord, hordnd, hst⟩ := h
+      have := hnf i (by omega)
+      have := hlt i (by omega)
       constructor
       all_goals simp only [put]
       all_goals grind
